@@ -30,7 +30,7 @@ CHECKS["C14"] = dict(
          "random UTF-8 incl. NUL and multi-byte, nesting) is lexed and a stride sample of the recorded token streams and tables is validated by "
          "TLC against LexTrace.tla, whose clauses are the statement of C14. Lexer.tla is a machine spec of Cursor::advance_token and every scanner; TLC (MCLexer) "
          "visits every text of <= 4 (thorough 5) chunks over five chunk sets (4.9e5 / 3.6e6 texts), proves the C14 clauses on the model's stream in every state and exports each "
-         "state; the real tokenize must produce the model's stream (kind, length, flags, suffix offset; drift otherwise) and satisfy the clauses; recorded streams of "
+         "state together with the rows of TokenTable.tla (machine spec of LexedStr::new); the real tokenize / LexedStr must produce the model's stream and rows (drift otherwise) and satisfy the clauses; recorded streams of "
          "corpus/mutated/random texts are validated by TLC against the machine spec (LexerTrace.tla).",
     note="partition clauses evaluated natively at scale and by TLC on the recorded sample; random inputs <= 4 KiB; Unicode classes by representatives",
     technique="TLA+ machine spec of the lexer model-checked by TLC for the C14 clauses + every state replayed into the real lexer + TLC trace validation of recorded token streams",
@@ -39,14 +39,15 @@ CHECKS["C15"] = dict(
     level="model_checking", design="5/C15, 4.2",
     text="Lexemes.tla states the OpenQASM 3 lexical grammar as a pool of 213 lexeme descriptors plus NeedsSep; TLC enumerates every ordered pair "
          "of lexemes with every admissible separator (4.7e5 cases) and simulated longer sequences; the real lexer + token table must show exactly "
-         "those lexemes (kind, exact text) and no lexical error.",
+         "those lexemes (kind, exact text) and no lexical error. Design level: the machine specs Lexer.tla (+) TokenTable.tla (LexedStr::new: kind conversion, keyword tables, "
+         "diagnostics) are model-checked against Lexemes for the same 4.4e5 sequences (LexRefine.tla, invariant C15_Model, 8.9e5 states), and bound to the code by the MCLexer replay of C14.",
     note="one representative per literal/identifier shape; unicode-xid trusted; CRLF after line-terminated lexemes not exercised",
     technique="TLA+ requirement spec as generator (TLC exhaustive pairs + simulation), behaviours replayed into the real lexer",
     engine="tlc+replay")
 CHECKS["C11"] = dict(
     level="model_checking", design="5/C11, 4.10",
     text="(a) the malformed classes of C11 in Lexemes.tla are spliced before/after every pool lexeme with every separator and at end of input; each "
-         "must carry a lexical diagnostic on an overlapping token. (b) Pipeline.tla (one action per stage) is model-checked against Gating.tla for every "
+         "must carry a lexical diagnostic on an overlapping token; the same clause is model-checked on the lexer machine specs (LexRefine.tla, C11_Model). (b) Pipeline.tla (one action per stage) is model-checked against Gating.tla for every "
          "include chain of depth <= 4 with one fault class per file (780 configurations); each is materialised on disk in 3-12 textual variants and "
          "pushed through both entry points; observed stage outcomes must equal Gating's.",
     note="fault snippets are fixed texts per class; include chains are linear",
